@@ -4,7 +4,7 @@ from . import common as C
 
 MANIFEST = dict(
    technique="Lean 4 proof by induction over modifier histories (internals = abstraction of the history; processModifiersCore transcribed) and over chains of Transform/Pipe wrappers (ZodTransform.Parse / ZodPipe.Parse transcribed, callback log included) + exhaustive short / random longer histories applied by reflection to real schemas of 30 types, bare and under every wrapper chain up to length 3 with logging sentinel callbacks, judged by the history-only specification",
-   text="c03_history_partial proves for every history (any length, any order) of Optional/Nilable/Nullish/NonOptional/Default/DefaultFunc/Prefault/PrefaultFunc that the engine's nil outcome is the documented one (default unchecked > prefault validated > nonoptional error > nil > type error); c03_witness_* prove the full statement false where an overwrite or a refinement is attached (known findings). For the schema wrapped in any chain of .Transform(f_i) / .Pipe(target_i) calls, c03_wrapped_default proves that with a default set a nil input returns what the bare schema returned and calls no transform function however many are chained (only pipe targets run: c03_witness_default_piped, known finding), c03_wrapped_plain that without a default (prefault, Optional/Nilable nil) and for every non-nil input each wrapper runs exactly once, in order, on the previous one's output, and c03_wrapped_partial combines them with the history theorem into the statement over result and callback log. The model is tied to /repo by applying every history up to length 2 (thorough: 3) plus random longer ones to real schemas through reflection and classifying Parse(nil)/Parse(typed nil) by sentinel default/prefault values; non-nil inputs are compared with the unmodified base schema (under the same wrappers) in the harness itself; wrapped cases are observed as a result term over the bare outcome plus the callback log.",
+   text="c03_history_partial proves for every history (any length, any order) of Optional/Nilable/Nullish/NonOptional/Default/DefaultFunc/Prefault/PrefaultFunc that the engine's nil outcome is the documented one (default unchecked > prefault validated > nonoptional error > nil > type error); c03_witness_* prove the full statement false where an overwrite or a refinement is attached (known findings). For the schema wrapped in any chain of .Transform(f_i) / .Pipe(target_i) calls, c03_wrapped_default proves that with a default set a nil input returns what the bare schema returned and calls no transform function however many are chained (pipe targets, being second schemas, receive the default: C10's reading of Pipe), c03_wrapped_plain that without a default (prefault, Optional/Nilable nil) and for every non-nil input each wrapper runs exactly once, in order, on the previous one's output, and c03_wrapped_partial combines them with the history theorem into the statement over result and callback log for every chain (its only hypothesis is the clean-history one of c03_history_partial). The model is tied to /repo by applying every history up to length 2 (thorough: 3) plus random longer ones to real schemas through reflection and classifying Parse(nil)/Parse(typed nil) by sentinel default/prefault values; non-nil inputs are compared with the unmodified base schema (under the same wrappers) in the harness itself; wrapped cases are observed as a result term over the bare outcome plus the callback log.",
    note="Trusted: Lean kernel; axioms propext/Classical.choice/Quot.sound at most; harness + comparer. Values are abstracted to valid/invalid w.r.t. the schema's own check. When both a value default and a function default are set the spec accepts either (lenient reading). Types with their own nil path (discriminated union, lazy) and Record's pointer variants deviate and are listed as known findings by failure class; Only Parse is exercised (StrictParse nil paths are C09's known findings); pipe targets and transform callbacks always succeed; bigint/complex/file/function/nil are not in the harness table. Callback arguments are compared up to numeric representation and nil-pointer vs zero value (a type's Transform wrapper dereferences).",
    design="DESIGN.md §5 C03")
 
@@ -15,7 +15,7 @@ THEOREMS = ["Gozod.C03." + t for t in [
     "c03_witness_default_checked", "c03_witness_refine_on_nil", "c03_witness_refine_on_nil_int",
     "internals_wrapFrom", "internals_wrap", "parse_wrapFrom_plain", "parse_wrapFrom_default",
     "c03_wrapped_plain", "c03_wrapped_default", "c03_default_skips_all_transforms", "pipeCalls_noPipe", "pipeCalls_only_pipes",
-    "hasDefault_applyAll", "c03_wrapped_partial", "c03_witness_default_piped", "c03_wrapped_nonnil"]]
+    "hasDefault_applyAll", "pipeCalls_eq_spec", "c03_wrapped_partial", "c03_wrapped_witness_default_checked", "c03_wrapped_nonnil"]]
 
 def cls(s):
     s = s.strip()
@@ -68,8 +68,6 @@ def key(op, impl, M, S):
         if eb.startswith("default"):
             if res.startswith("ok:f") or any(c.startswith("f") for c in calls):
                 return "wrapped:transform-ran-on-default"
-            if impl == M and calls and all(re.match(r"p\d+\(default:(value|func)\)$", c) for c in calls) and res == "ok:" + eb:
-                return "wrapped:pipe-target-ran-on-default"
             return "wrapped:default-other"
         return "wrapped:%s-callbacks-differ" % cls(eb)
     if ty == "record" and any(o in ("Optional", "Nilable", "Nullish") for o in ops):
@@ -98,6 +96,6 @@ def run(res):
         "each applicable history additionally under chains of .Transform(f_i)/.Pipe(logging target_i) (every chain of length <=3 for histories of length <=1 (thorough <=2), every chain of length <=2 for the other exhaustive histories, "
         "two random chains per random history), observing result term and callback log. distinct = distinct op lines.")
     res.assumptions += ["sentinel default/prefault values identify the source of a returned value", "lenient reading when both default kinds are set",
-                        "a pipe target counts as a callback: the statement's 'without running checks or transforms' is read as 'no user callback runs on the default'",
+                        "'default without running checks or transforms' speaks about the schema owning the default (its checks and Transform callbacks); a Pipe target is a second schema and receives whatever its source stage returns, a default included (C10's definition of Pipe)",
                         "callback arguments compared up to numeric representation and nil pointer vs zero value"]
     return res.finish()
